@@ -108,3 +108,55 @@ func init() {
 		return vx.RunSched(c, sc, sigOf("C12"))
 	}})
 }
+
+// C12 driver (f): a connection that joins a session too late. The session has already been closed
+// (by its application, or by a fault on its only connection - an explorer choice) when one more
+// connection is attached to it, as the client's connection goroutines 2..n and the server's dispatcher
+// may do. Nobody will ever use that connection; when its peer end goes away (closed or reset) the
+// session's side of it is closed as well - "all of the session's connections end up closed" includes
+// the late one.
+func init() {
+	vx.Register(&vx.Scenario{Name: "mux.lateadd", Prop: "C12", Run: func(c *vx.Ctx) *vx.Report {
+		sc := &vrt.Scenario{
+			Opt:      vrt.Options{Delay: true, RandInt: chooseConnOpt()},
+			Classify: deadlockIs("blocked-calls-return"),
+			Main: func() {
+				r := newMuxRig(rigCfg{conns: 1, unit: 256})
+				st, _ := r.cli.OpenStream()
+				st.Write([]byte("x"))
+				quiesce()
+				how := vrt.Choose(3, "closed-by")
+				switch how {
+				case 0:
+					r.cli.Close()
+				case 1:
+					r.ca[0].Reset()
+				case 2:
+					r.srv.Close()
+				}
+				quiesce()
+				if !r.cli.IsClosed() {
+					vrt.Fail("session-closed", "teardown %d: the client session is still open", how)
+				}
+				a, b := r.net.Pair("late", true)
+				r.cli.AddConnection(a)
+				quiesce()
+				gone := vrt.Choose(2, "peer-end")
+				if gone == 0 {
+					b.Close()
+				} else {
+					b.Reset()
+				}
+				quiesce()
+				if !a.IsClosed() {
+					vrt.Fail("all-conns-closed", "a connection attached to the session after it had been torn down (teardown %d) and whose peer end has gone (%d) is still open on the session's side", how, gone)
+				}
+				if _, err := r.cli.OpenStream(); err == nil {
+					vrt.Fail("new-streams-refused", "OpenStream succeeded on the closed session after a late connection was attached")
+				}
+				vrt.Observe("how=%d gone=%d", how, gone)
+			},
+		}
+		return vx.RunSched(c, sc, sigOf("C12"))
+	}})
+}
